@@ -23,7 +23,7 @@ def run(tier, seed, replay=None):
     wit = vlib.witnesses("NetLocal", "NetLocal_quick.cfg",
                          ["W_NoStale", "W_NoSeen", "W_NoAdopt", "W_NoShutdown", "W_NoReject", "W_NoDupFlood"], wd, workers=4)
     segs, steps = (45, 12) if tier == "quick" else (600, 16)
-    out = netlocal.run_netlocal(wd, seed, segs, steps)
+    out = netlocal.run_netlocal(wd, seed, segs, steps, race_rounds=600 if tier == "quick" else 4000)
     for viol in out["harness"]["violations"]:
         if viol["sig"].startswith("C06:"):
             v.violation(viol["sig"], viol["what"], viol["replay"])
@@ -61,5 +61,6 @@ def run(tier, seed, replay=None):
         raise vlib.Inconclusive("step classes never exercised: %s" % missing)
     return v.finish("model_checking", cov, assumptions=[
         "control messages on one session are delivered in order (memnet FIFO)",
+        "concurrent-updates scenario: two updates of one origin released at the same instant through two neighbours, 8 origins per round; a check-then-act window of a few instructions is hit within about 30 rounds on this machine (measured on a seeded change), 600 / 4000 rounds are played",
         "seenUpdates expiry is not exercised here (expiry time 1 h in these runs)",
     ])
